@@ -166,3 +166,429 @@ Proof.
         -- intros _. split; reflexivity.
         -- intros rest. rewrite heap_realloc by exact Hz. reflexivity.
 Qed.
+(* ------------------------------------------------------------------ *)
+(* the overflow tests *)
+
+Lemma representable_spec n : representable n = true <-> n < W.
+Proof. unfold representable. rewrite W_val. change (2 ^ 64) with 18446744073709551616. apply N.ltb_lt. Qed.
+
+Lemma overflow_test nrec reclen :
+  0 < reclen -> (SIZE_MAX / reclen <? nrec) = negb (representable (nrec * reclen)).
+Proof.
+  intros Hr. unfold representable. change (2 ^ 64) with 18446744073709551616. rewrite SIZE_MAX_val.
+  destruct (N.ltb_spec (nrec * reclen) 18446744073709551616) as [H|H]; cbn [negb].
+  - apply N.ltb_ge. apply N.div_le_lower_bound; lia.
+  - apply N.ltb_lt. apply N.div_lt_upper_bound; lia.
+Qed.
+
+(* ------------------------------------------------------------------ *)
+(* elasticarray_resize *)
+
+Definition resize_post (e : ea) (nsize : N) (ok : bool) (e' : ea) (ev : list aev) : Prop :=
+  (ok = true ->
+     ea_inv e' /\ ea_size e' = nsize /\
+     (forall k, (k <= N.to_nat (ea_size e))%nat -> (k <= N.to_nat nsize)%nat ->
+                firstn k (ea_buf e') = firstn k (ea_buf e)) /\
+     ea_alloc e' / 4 <= nsize /\
+     (ea_alloc e < ea_alloc e' -> ea_alloc e' <= 2 * nsize) /\
+     refused ev = false) /\
+  (ok = false -> e' = e /\ refused ev = true) /\
+  (forall rest, heap_run (ea_owned_buf e ++ rest) ev = Some (ea_owned_buf e' ++ rest)).
+
+Lemma resize_spec' e nsize o :
+  ea_inv e -> nsize < W ->
+  exists ok e' o' ev, resize_m 2 4 2 e nsize o = Ok (ok, e', o', ev) /\ resize_post e nsize ok e' ev.
+Proof. intros H1 H2. destruct (resize_spec e nsize o H1 H2) as (ok & e' & o' & ev & H & P). eauto 10. Qed.
+
+Lemma ea_resize_spec e nrec reclen o :
+  ea_inv e -> 0 < reclen ->
+  exists ok e' o' ev,
+    ea_resize 2 4 2 e nrec reclen o = Ok (ok, e', o', ev) /\
+    ((representable (nrec * reclen) = false /\ ok = false /\ e' = e /\ ev = [] /\ o' = o) \/
+     (representable (nrec * reclen) = true /\ resize_post e (nrec * reclen) ok e' ev)).
+Proof.
+  intros Hi Hr. unfold ea_resize.
+  destruct (N.eqb_spec reclen 0) as [->|_]; [lia|].
+  rewrite overflow_test by exact Hr.
+  destruct (representable (nrec * reclen)) eqn:E; cbn [negb].
+  - apply representable_spec in E.
+    rewrite (N.mod_small _ _ E).
+    destruct (resize_spec' e (nrec * reclen) o Hi E) as (ok & e' & o' & ev & H & P).
+    exists ok, e', o', ev. split; [exact H|]. right. split; [reflexivity|exact P].
+  - exists false, e, o, []. split; [reflexivity|]. left. repeat split; reflexivity.
+Qed.
+(* ------------------------------------------------------------------ *)
+(* list helpers *)
+
+Lemma firstn_two {A} (a b c : list A) n :
+  n = (length a + length b)%nat -> firstn n (a ++ b ++ c) = a ++ b.
+Proof.
+  intros ->. rewrite app_assoc, firstn_app, app_length.
+  rewrite firstn_all2 by (rewrite app_length; lia).
+  replace (length a + length b - (length a + length b))%nat with 0%nat by lia.
+  rewrite firstn_O, app_nil_r. reflexivity.
+Qed.
+
+Lemma firstn_firstn_le {A} (l : list A) i j : (i <= j)%nat -> firstn i (firstn j l) = firstn i l.
+Proof. intros H. rewrite firstn_firstn. f_equal. lia. Qed.
+
+(* ------------------------------------------------------------------ *)
+(* the client filling new records *)
+
+Lemma ea_get_small e pos reclen : pos * reclen < W -> ea_get e pos reclen = pos * reclen.
+Proof. intros H. unfold ea_get. apply N.mod_small. exact H. Qed.
+
+Lemma ea_fill_spec e from fill :
+  ea_inv e -> from <= ea_size e ->
+  exists e', ea_fill_from e from fill = Ok e' /\ ea_inv e' /\ ea_size e' = ea_size e /\
+             ea_alloc e' = ea_alloc e /\
+             ea_abs e' = firstn (N.to_nat from) (ea_buf e) ++ repeat fill (N.to_nat (ea_size e - from)).
+Proof.
+  intros (Hs & Hl & Ha) Hf. unfold ea_fill_from.
+  destruct (N.ltb_spec from (ea_size e)) as [H|H].
+  - unfold ea_poke. rewrite ea_get_small by lia. rewrite N.mul_1_r.
+    rewrite mem_write_ok by (rewrite repeat_length; lia).
+    cbn [bind]. eexists. split; [reflexivity|]. unfold ea_inv, ea_abs; cbn [ea_size ea_alloc ea_buf].
+    rewrite write_length by (rewrite repeat_length; lia).
+    repeat split; try assumption.
+    apply firstn_two. rewrite firstn_length, repeat_length. lia.
+  - exists e. split; [reflexivity|]. repeat split; try assumption.
+    unfold ea_abs. replace (ea_size e - from) with 0 by lia. cbn [N.to_nat repeat].
+    rewrite app_nil_r. f_equal. lia.
+Qed.
+
+(* ------------------------------------------------------------------ *)
+(* elasticarray_append *)
+
+Definition fits (size nrec reclen : N) : bool :=
+  representable (nrec * reclen) && representable (size + nrec * reclen).
+
+Lemma ea_append_spec e data nrec reclen o :
+  ea_inv e -> 0 < reclen ->
+  (nrec * reclen < W -> nrec * reclen <= N.of_nat (length data)) ->
+  exists ok e' o' ev,
+    ea_append 2 4 2 e data nrec reclen o = Ok (ok, e', o', ev) /\
+    ((fits (ea_size e) nrec reclen = false /\ ok = false /\ e' = e /\ ev = [] /\ o' = o) \/
+     (fits (ea_size e) nrec reclen = true /\ ok = false /\ e' = e /\ refused ev = true /\
+      (forall rest, heap_run (ea_owned_buf e ++ rest) ev = Some (ea_owned_buf e' ++ rest))) \/
+     (fits (ea_size e) nrec reclen = true /\ ok = true /\ refused ev = false /\ ea_inv e' /\
+      ea_abs e' = ea_abs e ++ firstn (N.to_nat (nrec * reclen)) data /\
+      ea_size e' = ea_size e + nrec * reclen /\
+      ea_alloc e' / 4 <= ea_size e' /\
+      (ea_alloc e < ea_alloc e' -> ea_alloc e' <= 2 * ea_size e') /\
+      (forall rest, heap_run (ea_owned_buf e ++ rest) ev = Some (ea_owned_buf e' ++ rest)))).
+Proof.
+  intros Hi Hr Hd. unfold ea_append, fits.
+  destruct (N.eqb_spec reclen 0) as [->|_]; [lia|].
+  rewrite overflow_test by exact Hr.
+  destruct (representable (nrec * reclen)) eqn:E1; cbn [negb orb andb].
+  2:{ exists false, e, o, []. split; [reflexivity|]. left. repeat split; reflexivity. }
+  apply representable_spec in E1. rewrite (N.mod_small _ _ E1).
+  assert (E2 : (SIZE_MAX - ea_size e <? nrec * reclen) = negb (representable (ea_size e + nrec * reclen))).
+  { unfold representable. change (2 ^ 64) with 18446744073709551616. rewrite SIZE_MAX_val.
+    destruct Hi as (Hs & Hl & Ha). rewrite W_val in *.
+    destruct (N.ltb_spec (ea_size e + nrec * reclen) 18446744073709551616); cbn [negb];
+      [apply N.ltb_ge | apply N.ltb_lt]; lia. }
+  rewrite E2.
+  destruct (representable (ea_size e + nrec * reclen)) eqn:E3; cbn [negb].
+  2:{ exists false, e, o, []. split; [reflexivity|]. left. repeat split; reflexivity. }
+  apply representable_spec in E3. rewrite (N.mod_small _ _ E3).
+  destruct (resize_spec' e (ea_size e + nrec * reclen) o Hi E3) as (ok & e1 & o1 & ev & H & P1 & P2 & P3).
+  rewrite H. cbn [bind].
+  destruct ok; cbn [negb].
+  - destruct (P1 eq_refl) as (Hi1 & Hs1 & Hp & Hc & Hg & Hrf). clear P2.
+    destruct (N.ltb_spec 0 nrec) as [Hn|Hn].
+    + destruct (N.eqb_spec (ea_size e + nrec * reclen) 0) as [Hz|_]; [nia|].
+      specialize (Hd E1).
+      rewrite mem_read_ok by lia. cbn [bind N.to_nat skipn].
+      destruct Hi as (Hs & Hl & Ha). destruct Hi1 as (Hs1' & Hl1 & Ha1).
+      assert (Hlen : length (firstn (N.to_nat (nrec * reclen)) data) = N.to_nat (nrec * reclen))
+        by (rewrite firstn_length; lia).
+      rewrite mem_write_ok by (rewrite Hlen; lia). cbn [bind].
+      eexists true, _, o1, ev. split; [reflexivity|]. right. right.
+      unfold ea_inv, ea_abs; cbn [ea_size ea_alloc ea_buf].
+      rewrite write_length by (rewrite Hlen; lia).
+      repeat split; try assumption; try lia.
+      rewrite Hs1. rewrite firstn_two by (rewrite firstn_length, Hlen; lia).
+      f_equal. apply Hp; lia.
+    + assert (nrec = 0) by lia. subst nrec.
+      exists true, e1, o1, ev. split; [reflexivity|]. right. right.
+      rewrite N.mul_0_l in *. rewrite N.add_0_r in *.
+      destruct Hi1 as (Hs1' & Hl1 & Ha1).
+      repeat split; try assumption; try lia.
+      cbn [N.to_nat firstn]. rewrite app_nil_r. unfold ea_abs. rewrite Hs1. apply Hp; lia.
+  - destruct (P2 eq_refl) as (-> & Hrf).
+    exists false, e, o1, ev. split; [reflexivity|]. right. left. repeat split; try assumption.
+Qed.
+(* ------------------------------------------------------------------ *)
+(* elasticarray_shrink: cannot fail *)
+
+Lemma ea_shrink_spec e nrec reclen o :
+  ea_inv e -> 0 < reclen ->
+  exists e' o' ev,
+    ea_shrink 2 4 2 e nrec reclen o = Ok (e', o', ev) /\ ea_inv e' /\
+    ea_size e' = ea_size e - nrec * reclen /\
+    ea_abs e' = firstn (N.to_nat (ea_size e - nrec * reclen)) (ea_abs e) /\
+    (refused ev = false -> ea_alloc e' / 4 <= ea_size e') /\
+    (forall rest, heap_run (ea_owned_buf e ++ rest) ev = Some (ea_owned_buf e' ++ rest)).
+Proof.
+  intros Hi Hr. unfold ea_shrink.
+  destruct (N.eqb_spec reclen 0) as [->|_]; [lia|].
+  rewrite overflow_test by exact Hr.
+  match goal with |- context [resize_m _ _ _ _ ?n _] => set (nsize := n) end.
+  assert (Hn : nsize = ea_size e - nrec * reclen).
+  { subst nsize. destruct Hi as (Hs & Hl & Ha).
+    destruct (representable (nrec * reclen)) eqn:E1; cbn [negb orb].
+    - apply representable_spec in E1. rewrite (N.mod_small _ _ E1).
+      destruct (N.ltb_spec (ea_size e) (nrec * reclen)); lia.
+    - assert (~ nrec * reclen < W) by (rewrite <- representable_spec; congruence). lia. }
+  assert (HnW : nsize < W) by (destruct Hi as (Hs & Hl & Ha); lia).
+  destruct (resize_spec' e nsize o Hi HnW) as (ok & e1 & o1 & ev & H & P1 & P2 & P3).
+  rewrite H. cbn [bind]. destruct ok.
+  - destruct (P1 eq_refl) as (Hi1 & Hs1 & Hp & Hc & Hg & Hrf).
+    exists e1, o1, ev. split; [reflexivity|]. rewrite <- Hn.
+    destruct Hi as (Hs & Hl & Ha). destruct Hi1 as (Hs1' & Hl1 & Ha1).
+    repeat split; try assumption; try lia.
+    unfold ea_abs. rewrite Hs1. rewrite firstn_firstn_le by lia. apply Hp; lia.
+  - destruct (P2 eq_refl) as (-> & Hrf).
+    eexists _, o1, ev. split; [reflexivity|]. rewrite <- Hn.
+    destruct Hi as (Hs & Hl & Ha).
+    unfold ea_inv, ea_abs; cbn [ea_size ea_alloc ea_buf].
+    repeat split; try assumption; try lia.
+    + rewrite firstn_firstn_le by lia. reflexivity.
+    + congruence.
+Qed.
+
+(* ------------------------------------------------------------------ *)
+(* elasticarray_truncate *)
+
+Lemma ea_truncate_spec e o :
+  ea_inv e ->
+  exists ok e' o' ev,
+    ea_truncate e o = Ok (ok, e', o', ev) /\
+    (ok = true -> refused ev = false /\ ea_inv e' /\ ea_size e' = ea_size e /\
+                  ea_alloc e' = ea_size e /\ ea_buf e' = ea_abs e) /\
+    (ok = false -> e' = e /\ refused ev = true) /\
+    (forall rest, heap_run (ea_owned_buf e ++ rest) ev = Some (ea_owned_buf e' ++ rest)).
+Proof.
+  intros (Hs & Hl & Ha). unfold ea_truncate.
+  destruct (N.eqb_spec (ea_size e) 0) as [Hz|Hz].
+  - eexists true, _, o, _. split; [reflexivity|]. split; [|split].
+    + intros _. unfold ea_inv, ea_abs; cbn [ea_size ea_alloc ea_buf length]. rewrite Hz.
+      repeat split; try lia; try (rewrite W_val; lia).
+      unfold ea_free_buf_ev. destruct (ea_blk e); reflexivity.
+    + discriminate.
+    + intros rest. rewrite heap_free_buf. reflexivity.
+  - destruct (N.ltb_spec (ea_size e) (ea_alloc e)) as [Hlt|Hge].
+    + destruct (next o) as [b o'] eqn:Eo. destruct b.
+      * eexists true, _, o', _. split; [reflexivity|]. split; [|split].
+        -- intros _. unfold ea_inv, ea_abs; cbn [ea_size ea_alloc ea_buf].
+           rewrite realloc_buf_length. repeat split; try lia.
+           unfold realloc_buf. replace (N.to_nat (ea_size e) - length (ea_buf e))%nat with 0%nat by lia.
+           cbn [repeat]. apply app_nil_r.
+        -- discriminate.
+        -- intros rest. rewrite heap_realloc by exact Hz.
+           unfold ea_owned_buf, ea_blk. cbn [ea_alloc].
+           destruct (N.eqb_spec (ea_size e) 0); [contradiction|reflexivity].
+      * eexists false, e, o', _. split; [reflexivity|]. split; [|split].
+        -- discriminate.
+        -- intros _. split; reflexivity.
+        -- intros rest. rewrite heap_realloc by exact Hz. reflexivity.
+    + eexists true, e, o, []. split; [reflexivity|]. split; [|split].
+      * intros _. unfold ea_inv, ea_abs. repeat split; try lia.
+        rewrite firstn_all2 by lia. reflexivity.
+      * discriminate.
+      * intros rest. reflexivity.
+Qed.
+
+(* ------------------------------------------------------------------ *)
+(* getsize, get, export, exportdup *)
+
+Lemma ea_getsize_ok e reclen : 0 < reclen -> ea_getsize e reclen = Ok (ea_size e / reclen).
+Proof. intros H. unfold ea_getsize. destruct (N.eqb_spec reclen 0); [lia|reflexivity]. Qed.
+
+(* a record that getsize says exists lies inside the storage, and is the ideal record *)
+Lemma ea_get_record e pos reclen :
+  ea_inv e -> 0 < reclen -> pos < ea_size e / reclen ->
+  ea_get e pos reclen + reclen <= ea_alloc e /\
+  mem_read (ea_buf e) (ea_get e pos reclen) reclen =
+  Ok (firstn (N.to_nat reclen) (skipn (N.to_nat (pos * reclen)) (ea_abs e))).
+Proof.
+  intros (Hs & Hl & Ha) Hr Hp.
+  assert (Hb : (pos + 1) * reclen <= ea_size e).
+  { assert (pos + 1 <= ea_size e / reclen) by lia.
+    transitivity (ea_size e / reclen * reclen); [nia|]. rewrite N.mul_comm. apply N.mul_div_le. lia. }
+  rewrite ea_get_small by lia. split; [lia|].
+  rewrite mem_read_ok by lia. f_equal. unfold ea_abs.
+  rewrite skipn_firstn_comm. rewrite firstn_firstn_le by lia. reflexivity.
+Qed.
+(* ------------------------------------------------------------------ *)
+(* events *)
+
+Lemma refused_app a b : refused (a ++ b) = refused a || refused b.
+Proof. unfold refused. apply existsb_app. Qed.
+
+Lemma heap_run_app h a b :
+  heap_run h (a ++ b) = match heap_run h a with Some h' => heap_run h' b | None => None end.
+Proof.
+  revert h. induction a as [|e a IH]; intros h; cbn [app heap_run]; [reflexivity|].
+  destruct (heap_apply h e); [apply IH|reflexivity].
+Qed.
+
+Lemma ea_owned_split ssz e : ea_owned ssz e = ea_owned_buf e ++ [ssz].
+Proof. unfold ea_owned, ea_owned_buf. destruct (ea_blk e); reflexivity. Qed.
+
+Lemma remove1_head x h : remove1 x (x :: h) = Some h.
+Proof. cbn. rewrite N.eqb_refl. reflexivity. Qed.
+
+(* remove1 of an element that is present: a permutation *)
+Lemma remove1_in x a b : exists h, remove1 x (a ++ x :: b) = Some h /\ Permutation h (a ++ b).
+Proof.
+  induction a as [|y a IH]; cbn [app].
+  - exists b. rewrite remove1_head. split; [reflexivity|apply Permutation_refl].
+  - destruct IH as (h & H1 & H2). cbn [remove1]. destruct (N.eqb_spec x y) as [->|Hne].
+    + exists (a ++ y :: b). split; [reflexivity|]. apply Permutation_sym, Permutation_middle.
+    + rewrite H1. exists (y :: h). split; [reflexivity|]. apply perm_skip. exact H2.
+Qed.
+
+(* ------------------------------------------------------------------ *)
+(* one operation of a client program *)
+
+Definition ea_op_ok (op : ea_op) : Prop :=
+  match op with
+  | OInit _ reclen _ | OResize _ reclen _ | OShrink _ reclen | OGet _ reclen
+  | OGetsize reclen | OExport reclen | OExportdup reclen => 0 < reclen
+  | OAppend data nrec reclen =>
+    0 < reclen /\ (nrec * reclen < W -> nrec * reclen <= N.of_nat (length data))
+  | OTruncate | OFree => True
+  end.
+
+Definition st_inv (st : option ea) : Prop := match st with Some e => ea_inv e | None => True end.
+Definition st_abs (st : option ea) : option (list N) := option_map ea_abs st.
+Definition st_cap (st : option ea) : Prop :=
+  match st with Some e => ea_alloc e / 4 <= ea_size e | None => True end.
+Definition st_owned (ssz : N) (st : option ea) : list N :=
+  match st with Some e => ea_owned ssz e | None => [] end.
+
+(* the value by which an operation reports failure *)
+Definition ea_err_out (op : ea_op) : ea_out :=
+  match op with
+  | OExport _ | OExportdup _ => XExport false [] 0
+  | _ => XRc false
+  end.
+
+Definition is_shrink (op : ea_op) : bool := match op with OShrink _ _ => true | _ => false end.
+
+(* operations after whose success the storage bound is promised whatever happened before *)
+Definition establishes_cap (op : ea_op) (x : ea_out) (ev : list aev) : Prop :=
+  match op with
+  | OInit _ _ _ | OResize _ _ _ | OAppend _ _ _ | OTruncate => x = XRc true
+  | OShrink _ _ => refused ev = false
+  | _ => False
+  end.
+
+(* blocks handed to the client by export / exportdup *)
+Definition handed (op : ea_op) (x : ea_out) (st : option ea) : list N :=
+  match op, x, st with
+  | OExport _, XExport true b _, Some _ => if N.of_nat (length b) =? 0 then [] else [N.of_nat (length b)]
+  | OExportdup _, XExport true b _, Some _ => [N.of_nat (length b)]
+  | _, _, _ => []
+  end.
+
+Definition step_post (ssz : N) (op : ea_op) (st : option ea) (x : ea_out) (st' : option ea)
+           (ev : list aev) : Prop :=
+  st_inv st' /\
+  ea_spec_step op (st_abs st) (refused ev) = (x, st_abs st') /\
+  (refused ev = true -> is_shrink op = false -> st' = st /\ x = ea_err_out op) /\
+  (refused ev = false -> st_cap st -> st_cap st') /\
+  (establishes_cap op x ev -> st_cap st') /\
+  (forall rest, exists h, heap_run (st_owned ssz st ++ rest) ev = Some h /\
+                          Permutation h (st_owned ssz st' ++ handed op x st ++ rest)).
+
+Lemma ideal_len_abs e : ea_inv e -> ideal_len (ea_abs e) = ea_size e.
+Proof. apply ea_abs_length. Qed.
+
+Lemma pad_to_shrink l n fill : n <= N.of_nat (length l) -> pad_to l n fill = firstn (N.to_nat n) l.
+Proof.
+  intros H. unfold pad_to. replace (N.to_nat n - length l)%nat with 0%nat by lia.
+  cbn [repeat]. apply app_nil_r.
+Qed.
+
+Lemma pad_to_grow l n fill :
+  N.of_nat (length l) <= n -> pad_to l n fill = l ++ repeat fill (N.to_nat (n - N.of_nat (length l))).
+Proof.
+  intros H. unfold pad_to. rewrite firstn_all2 by lia. f_equal. f_equal. lia.
+Qed.
+(* ------------------------------------------------------------------ *)
+(* the step theorem, operation by operation *)
+
+Ltac perm_refl := eexists; split; [reflexivity | apply Permutation_refl].
+Ltac post6 :=
+  unfold step_post;
+  cbn [st_inv st_abs option_map ea_spec_step st_cap st_owned handed app establishes_cap is_shrink
+       ea_err_out];
+  refine (conj _ (conj _ (conj _ (conj _ (conj _ _))))).
+
+Lemma step_init ssz nrec reclen fill o :
+  0 < reclen ->
+  exists x st' o' ev,
+    ea_step 2 4 2 ssz (OInit nrec reclen fill) None o = Ok (x, st', o', ev) /\
+    step_post ssz (OInit nrec reclen fill) None x st' ev.
+Proof.
+  intros Hr. cbn [ea_step]. unfold ea_init.
+  destruct (N.eqb_spec reclen 0) as [->|_]; [lia|].
+  destruct (next o) as [b o1] eqn:Eo. destruct b; cbn [negb].
+  2:{ cbn [bind]. eexists _, _, _, _. split; [reflexivity|]. post6.
+      - exact I.
+      - reflexivity.
+      - intros _ _. split; reflexivity.
+      - intros _ _. exact I.
+      - discriminate.
+      - intros rest. cbn [heap_run heap_apply]. perm_refl. }
+  destruct (ea_resize_spec ea0 nrec reclen o1 ea0_inv Hr) as (ok & e1 & o2 & ev2 & H & P).
+  fold ea0. rewrite H. cbn [bind].
+  destruct P as [(Hrep & -> & -> & -> & ->) | (Hrep & P1 & P2 & P3)].
+  - (* size not representable *)
+    cbn [bind]. eexists _, _, _, _. split; [reflexivity|]. post6.
+    + exact I.
+    + match goal with |- context [refused ?l] => assert (Hrf : refused l = false) by reflexivity end.
+      rewrite Hrf, Hrep. reflexivity.
+    + intros _ _. split; reflexivity.
+    + intros _ _. exact I.
+    + discriminate.
+    + intros rest. cbn. rewrite N.eqb_refl. perm_refl.
+  - destruct ok.
+    + destruct (P1 eq_refl) as (Hi1 & Hs1 & Hp & Hc & Hg & Hrf). clear P2.
+      destruct (ea_fill_spec e1 0 fill Hi1 ltac:(lia)) as (e2 & Hf & Hi2 & Hs2 & Ha2 & Habs).
+      cbn [bind]. rewrite Hf. cbn [bind]. eexists _, _, _, _. split; [reflexivity|].
+      assert (Hrf' : refused (AMalloc ssz true :: ev2) = false) by (cbn; exact Hrf).
+      post6.
+      * exact Hi2.
+      * rewrite Hrf', Hrep. cbn [negb orb]. rewrite Habs. cbn [N.to_nat firstn app].
+        rewrite Hs1, N.sub_0_r. reflexivity.
+      * rewrite Hrf'. discriminate.
+      * intros _ _. lia.
+      * intros _. lia.
+      * intros rest. cbn [heap_run heap_apply].
+        specialize (P3 (ssz :: rest)). change (ea_owned_buf ea0) with (@nil N) in P3.
+        cbn [app] in P3. rewrite P3.
+        eexists; split; [reflexivity|].
+        rewrite ea_owned_split.
+        replace (ea_owned_buf e2) with (ea_owned_buf e1)
+          by (unfold ea_owned_buf, ea_blk; rewrite Ha2; reflexivity).
+        rewrite <- app_assoc. apply Permutation_refl.
+    + destruct (P2 eq_refl) as (-> & Hrf). clear P1.
+      cbn [bind]. eexists _, _, _, _. split; [reflexivity|].
+      assert (Hrf' : refused (AMalloc ssz true :: ev2 ++ ea_free_ev ssz ea0) = true).
+      { change (refused ([AMalloc ssz true] ++ ev2 ++ ea_free_ev ssz ea0) = true).
+        rewrite !refused_app, Hrf. apply orb_true_r. }
+      post6.
+      * exact I.
+      * rewrite Hrf'. reflexivity.
+      * intros _ _. split; reflexivity.
+      * intros _ _. exact I.
+      * discriminate.
+      * intros rest. cbn [heap_run heap_apply]. rewrite heap_run_app.
+        specialize (P3 (ssz :: rest)). change (ea_owned_buf ea0) with (@nil N) in P3.
+        cbn [app] in P3. rewrite P3. cbn. rewrite N.eqb_refl. perm_refl.
+Qed.
